@@ -431,4 +431,30 @@ theorem peer_close_while_write_paused_is_not_blocked :
     s.closeCode = some 4001 ∧ s.closed = true ∧ s.trClosing = true ∧ s.now = 0 := by
   decide +kernel
 
+/-! ## thresholds -/
+
+/-- `calculate_timeout_when`: a timeout at or below the ceil threshold (5 s) is used as is … -/
+theorem calcWhen_at_or_below_threshold (now t : Nat) (h : t ≤ Gen.C13.ceilThresholdMs) : calcWhen now t = now + t := by
+  unfold calcWhen
+  simp [Nat.not_lt.mpr h]
+
+/-- … above it the deadline is rounded up to a whole second: never early, less than one second late. -/
+theorem calcWhen_above_threshold (now t : Nat) (h : t > Gen.C13.ceilThresholdMs) :
+    calcWhen now t % 1000 = 0 ∧ now + t ≤ calcWhen now t ∧ calcWhen now t < now + t + 1000 := by
+  unfold calcWhen ceilSec
+  simp only [h, ↓reduceIte]
+  omega
+
+/-- The writer's flow control parks the sender only when `_output_size` has exceeded the limit (strictly) and the
+transport is write-paused; in every other case `send_frame` returns at once. -/
+theorem flowControl_parks_only_over_limit_and_paused (s : St) (h : (flowControl s).2 = .park) :
+    s.outSize > s.cfg.limit ∧ s.paused = true := by
+  unfold flowControl at h
+  split at h
+  · next h1 =>
+    split at h
+    · next h2 => exact ⟨h1, h2⟩
+    · cases h
+  · cases h
+
 end Aio.C13
